@@ -372,6 +372,18 @@ def result_entries():
         T2 = ref.rt(ref.rot2(a), (1.0, 2.0))
         E.append(('base.tr2xyt/%g' % a, lambda u, T2=T2: b.tr2xyt(T2.copy(), unit=u)[2]))
         E.append(('SO2.theta/%g' % a, lambda u, a=a: sm.SO2(ref.rot2(a)).theta(unit=u)))
+    # the same accessors on objects holding several values
+    for M in (2, 3, 4):
+        angs = [0.3, -2.5, 1.2, 3.0][:M]
+        R3 = [ref.rpy(a, 0.2 * (j + 1), -a / 2, 'zyx') for j, a in enumerate(angs)]
+        E.append(('SO2.theta/multi/M=%d' % M, lambda u, angs=angs: sm.SO2([ref.rot2(a) for a in angs]).theta(unit=u)))
+        E.append(('SE2.theta/multi/M=%d' % M, lambda u, angs=angs: sm.SE2([ref.rt(ref.rot2(a), (1.0, 2.0)) for a in angs]).theta(unit=u)))
+        for order in ('zyx', 'xyz', 'yxz'):
+            E.append(('SO3.rpy/%s/multi/M=%d' % (order, M), lambda u, R3=R3, order=order: sm.SO3([R.copy() for R in R3]).rpy(unit=u, order=order)))
+            E.append(('UnitQuaternion.rpy/%s/multi/M=%d' % (order, M), lambda u, R3=R3, order=order: sm.UnitQuaternion([ref.r2q_ref(R) for R in R3]).rpy(unit=u, order=order)))
+        E.append(('SO3.eul/multi/M=%d' % M, lambda u, R3=R3: sm.SO3([R.copy() for R in R3]).eul(unit=u)))
+        E.append(('SE3.eul/multi/M=%d' % M, lambda u, R3=R3: sm.SE3([ref.rt(R, (1.0, 2.0, 3.0)) for R in R3]).eul(unit=u)))
+        E.append(('UnitQuaternion.eul/multi/M=%d' % M, lambda u, R3=R3: sm.UnitQuaternion([ref.r2q_ref(R) for R in R3]).eul(unit=u)))
     return E
 
 
